@@ -125,6 +125,7 @@ type Exec struct {
 	MidSnap            *Snap           // state between the staking and the alliance end-blocker of the last block op
 	EndSnap            *Snap           // state at the last block boundary (after both end-blockers, before time advances)
 	blockHad           map[string]bool // op kinds executed successfully since the last block boundary
+	powerHist          []map[int]int64 // validator powers after the end-blockers of the last blocks (oldest first)
 	LastClaimAllFailed []string        // position keys whose claim failed in the last claim_all
 	// Twin (C18): a sibling execution whose alliance module state went through
 	// ExportGenesis -> wipe -> InitGenesis; every later op is applied to both.
@@ -677,19 +678,40 @@ func (x *Exec) nextBlock(op *Op) Res {
 				return err
 			}
 		}
-		var votes []abci.VoteInfo
-		total := int64(0)
+		// The votes a block carries are those of the validator set that signed the previous block;
+		// validator-set changes decided by the end-blocker of block H take effect at block H+2
+		// (CometBFT). So the allocation at the start of block H+1 goes to the set in force after the
+		// end-blocker of block H-2: a validator that was jailed or left the set keeps earning for
+		// two more blocks.
+		cur := map[int]int64{}
 		err := w.App.StakingKeeper.IterateLastValidatorPowers(ctx, func(addr sdk.ValAddress, power int64) bool {
-			i := w.ValIndex(addr.String())
-			if i < 0 {
-				return false
+			if i := w.ValIndex(addr.String()); i >= 0 {
+				cur[i] = power
 			}
-			votes = append(votes, abci.VoteInfo{Validator: abci.Validator{Address: w.ValCons[i], Power: power}})
-			total += power
 			return false
 		})
 		if err != nil {
 			return err
+		}
+		x.powerHist = append(x.powerHist, cur)
+		signers := x.powerHist[0]
+		if n := len(x.powerHist); n >= 3 {
+			signers = x.powerHist[n-3]
+			x.powerHist = x.powerHist[n-3:]
+		}
+		var votes []abci.VoteInfo
+		total := int64(0)
+		for i := range w.Vals {
+			if p, ok := signers[i]; ok {
+				// (a validator removed within two blocks of leaving the set — only possible with the
+				// nanosecond unbonding times of the menus — would make x/distribution fail; not a
+				// state a chain with a sane unbonding time reaches)
+				if _, err := w.App.StakingKeeper.GetValidator(ctx, w.Vals[i]); err != nil {
+					continue
+				}
+				votes = append(votes, abci.VoteInfo{Validator: abci.Validator{Address: w.ValCons[i], Power: p}})
+				total += p
+			}
 		}
 		return w.App.DistrKeeper.AllocateTokens(ctx, total, votes)
 	})
@@ -798,6 +820,7 @@ func (x *Exec) forkTwin(op Op) Res {
 	t.Ctx = t.Ctx.WithLogger(&capLogger{x: t})
 	t.L = x.L.clone()
 	t.LastEndTime = x.LastEndTime
+	t.powerHist = append([]map[int]int64{}, x.powerHist...)
 	t.Log = append([]Op{}, x.Log...)
 	t.Ress = append([]Res{}, x.Ress...)
 	res := Res{OK: true}
